@@ -1394,8 +1394,11 @@ private:
 
         if (thread_context->has_bounded_queue_type())
         {
+          // a failure counter that has not been reported yet keeps the context alive: it is
+          // removed after the next _check_failure_counter, otherwise the count would be lost
           return thread_context->get_spsc_queue_union().bounded_spsc_queue.empty() &&
-            thread_context->_transit_event_buffer->empty();
+            thread_context->_transit_event_buffer->empty() &&
+            (thread_context->_failure_counter.load(std::memory_order_relaxed) == 0);
         }
       }
 
